@@ -32,7 +32,8 @@ EXTENDS Integers, Sequences, FiniteSets, Json, IOUtils, TLC, CtlDocDefs
 Cases == JsonDeserialize(IOEnv.CASES)
 VARIABLES tid, verdict
 
-DOT == -1                     \* the word "." (a word of k dots is -k)
+DOT == 2000100                \* the word "." (word code = 100 * core + 10 * opening braces + closing braces;
+                              \* core 0 = braces only, core 20000 + k = k dots)
 SEP == -100                   \* line break inside a paragraph (kept lines)
 Mark(ord) == 0 - (200 + ord)  \* "the following words sit on instruction ord of the group"
 
@@ -255,7 +256,7 @@ Ords(ls, j, dots, nst) == IF j > Len(ls) THEN <<>>
                           ELSE LET d == IF ls[j].c = 0 THEN dots + 1 ELSE dots
                                    o == IF d = 0 THEN 0 ELSE IF d - 1 < nst - 1 THEN d - 1 ELSE nst - 1
                                IN <<<<IF o < 0 THEN 0 ELSE o, ls[j].w>>>> \o Ords(ls, j + 1, d, nst)
-Undot(w) == IF Len(w) = 1 /\ w[1] < 0 /\ w[1] > -100 THEN (IF w[1] = -1 THEN <<>> ELSE <<w[1] + 1>>) ELSE w
+Undot(w) == IF Len(w) = 1 /\ w[1] >= DOT /\ (w[1] % 100) = 0 THEN (IF w[1] = DOT THEN <<>> ELSE <<w[1] - 100>>) ELSE w
 CommentItem(r, e, stmts, kl) ==
   LET ls == DirLines(r)
       nst == Cardinality({s \in stmts : r.a <= s.a /\ s.a < e})
@@ -330,7 +331,7 @@ Judge(c) ==
 
 \* drift of the ctl0 -> A leg: items of the generated document that A does not show
 Drift(c) == IF c.err # "" \/ c.A.bad > 0 THEN {}
-            ELSE LET IA == SkoolItems(c.A, c.kl = 1, c.hexm = 1)
+            ELSE LET IA == SkoolItems(c.A, FALSE, c.hexm = 1)
                      D == {Item(c.D[j].k, c.D[j].a, c.D[j].i, c.D[j].p) : j \in 1..Len(c.D)}
                  IN D \ IA
 
